@@ -136,6 +136,35 @@ func c14Input(family string, n int, ctxs map[string]c14Context) (expr string, al
 			l[n-1-i] = ids[(i*11)%len(ids)]
 		}
 		return strings.Join(e, " AND "), l, true
+	case "invalid:paren-depth-missing-operator":
+		return strings.Repeat("(", n) + "MIT ISC" + strings.Repeat(")", n), nil, true
+	case "invalid:paren-depth-dangling-and":
+		return strings.Repeat("(", n) + "MIT AND" + strings.Repeat(")", n), nil, true
+	case "invalid:paren-depth-leading-or":
+		return strings.Repeat("(", n) + "OR MIT" + strings.Repeat(")", n), nil, true
+	case "invalid:paren-depth-unknown-id":
+		return strings.Repeat("(", n) + "MIT AND FOO" + strings.Repeat(")", n), nil, true
+	case "invalid:unclosed":
+		return strings.Repeat("(MIT AND ", n) + "ISC", nil, true
+	case "invalid:overclosed":
+		return "MIT" + strings.Repeat(" AND ISC)", n), nil, true
+	case "invalid:chain-then-missing-operator":
+		l := make([]string, n)
+		for i := range l {
+			l[i] = c14Pool[i%8]
+		}
+		return strings.Join(l, " OR ") + " MIT", nil, true
+	case "invalid:groups-then-dangling":
+		return strings.Repeat("(MIT OR ISC) AND ", n) + "(", nil, true
+	case "invalid:with-without-exception":
+		return strings.Repeat("(", n) + "MIT WITH" + strings.Repeat(")", n), nil, true
+	case "invalid:allowed-invalid-last":
+		l := make([]string, n)
+		for i := range l {
+			l[i] = ids[(i*7)%len(ids)]
+		}
+		l[n-1] = "FOO AND"
+		return "MIT AND ISC", l, true
 	case "repeated-term-or":
 		l := make([]string, n)
 		for i := range l {
@@ -147,7 +176,10 @@ func c14Input(family string, n int, ctxs map[string]c14Context) (expr string, al
 }
 
 var c14Scalar = []string{"paren-depth", "spaces", "long-unknown-id", "long-licenseref", "or-later-rewrites", "plus-terms", "with-terms",
-	"allowed-equal", "allowed-distinct", "allowed-family-overlap", "n-terms-n-entries", "repeated-term-or"}
+	"allowed-equal", "allowed-distinct", "allowed-family-overlap", "n-terms-n-entries", "repeated-term-or",
+	// error paths: the input is invalid, the cost must still be polynomial
+	"invalid:paren-depth-missing-operator", "invalid:paren-depth-dangling-and", "invalid:paren-depth-leading-or", "invalid:paren-depth-unknown-id",
+	"invalid:unclosed", "invalid:overclosed", "invalid:chain-then-missing-operator", "invalid:groups-then-dangling", "invalid:with-without-exception", "invalid:allowed-invalid-last"}
 
 var c14Fns = []string{"Satisfies/none-allowed", "Satisfies/all-allowed", "ExtractLicenses", "ValidateLicenses"}
 
@@ -242,7 +274,7 @@ func init() {
 		ID:       "C14",
 		Title:    "cost is polynomial in input size",
 		Explorer: "E1 exhaustive enumeration of linear recursion families (every context <= k leaves with a hole) unrolled under a length bound, deterministic allocation monitor on the real code",
-		Rule: "family = a recursion context (tree with <= k leaves, any AND/OR labelling, one leaf marked as hole; e1 = a term, e(n+1) = C[e(n)] with fresh leaves round-robin from 8 licence ids + 2 references) or one of 12 scalar families (parenthesis depth, spaces, long ids, rewrite chains, long / overlapping allowed lists, n terms vs n entries); each family is unrolled n = 1,2,3,... (scalar: doubling) while the total argument length stays <= B bytes (B = 2048 quick, 4096 thorough); " +
+		Rule: "family = a recursion context (tree with <= k leaves, any AND/OR labelling, one leaf marked as hole; e1 = a term, e(n+1) = C[e(n)] with fresh leaves round-robin from 8 licence ids + 2 references) or one of 22 scalar families (parenthesis depth, spaces, long ids, rewrite chains, long / overlapping allowed lists, n terms vs n entries, and 10 families of INVALID input that exercise the error paths); each family is unrolled n = 1,2,3,... (scalar: doubling) while the total argument length stays <= B bytes (B = 2048 quick, 4096 thorough); " +
 			"state = (family, n), 4 transitions (Satisfies with nothing / everything allowed, ExtractLicenses, ValidateLicenses); oracles: completes, TotalAlloc delta < 1 GiB, < 10 s, and alloc(2n) <= 20*alloc(n) (local degree <= 4); non-trivial = states with n >= 4 of families whose context contains both operators",
 		Assumptions: []string{
 			"TotalAlloc/Mallocs deltas of a single-goroutine call are deterministic; the growth law is evaluated on every doubling inside the bound, its continuation beyond the bound is an extrapolation",
